@@ -10,7 +10,7 @@ RULE = ('Hypothesis draws 1-4 complete types from the D-Bus type grammar (depth<
         '(struct as list/tuple/dbusOrder object, dict as dict/pairs, ay as bytearray/list, wrapper classes), '
         'byte order and start offset 0..15; oracle: unmarshal(marshal(x)) == normal form of x, byte counts agree, '
         'marshal(s1+s2) == marshal(s1)++marshal(s2 at shifted offset). grid: every type code x 16 offsets x 2 orders '
-        '(exhaustive). Non-trivial = signature has a container/variant/string-like type, or offset%8!=0, or big-endian; '
+        '(exhaustive). size_limit: string arrays with exactly 2^26-1 and 2^26 bytes of element data (the largest legal array) round-trip. Non-trivial = signature has a container/variant/string-like type, or offset%8!=0, or big-endian; '
         'distinct = distinct canonical JSON of the whole case.')
 ASSUMPTIONS = [
     'values offered are only those struct.pack accepts for the type; strings exclude NUL and lone surrogates',
@@ -54,6 +54,41 @@ def run_roundtrip(case):
     return out
 
 
+def enum_size_limit(tier):
+    """Arrays whose element data is just below, and exactly at, the largest size the specification allows (2^26 bytes)."""
+    for total in (2**26 - 1, 2**26):
+        for le in (True, False):
+            yield {'array_bytes': total, 'le': le, 'shape': 'one'}
+    yield {'array_bytes': 2**26, 'le': True, 'shape': 'four'}
+
+
+def run_size_limit(case):
+    from txdbus import marshal as M
+    total = case['array_bytes']
+    if case['shape'] == 'one':
+        strings = ['s' * (total - 5)]            # 4-byte length + text + NUL = total bytes of element data
+    else:
+        strings = ['q' * (total // 4 - 5)] * 4   # each element 2^24 bytes (a multiple of 4: no padding in between)
+    out = []
+    try:
+        n, chunks = M.marshal('as', [strings], 0, case['le'])
+        data = b''.join(chunks)
+    except Exception as e:
+        return [Disc(exc_key(e, 'limit.marshal'), '%d bytes of array data: %s' % (total, exc_detail(e)))]
+    import struct
+    declared = struct.unpack_from('<I' if case['le'] else '>I', data, 0)[0]
+    if declared != total or n != len(data) or len(data) != 4 + total:
+        out.append(Disc('limit.encoding', 'array data %d: length field %d, reported %d, produced %d' % (total, declared, n, len(data))))
+    try:
+        n2, vals = M.unmarshal('as', data, 0, case['le'])
+    except Exception as e:
+        return out + [Disc(exc_key(e, 'limit.unmarshal'), 'the decoder refuses %d bytes of array data it has just been given '
+                           'by the encoder: %s' % (total, exc_detail(e)))]
+    if vals != [strings] or n2 != n:
+        out.append(Disc('limit.roundtrip', 'array data %d: consumed %d of %d, equal=%r' % (total, n2, n, vals == [strings])))
+    return out
+
+
 SUBCHECKS = [
     Subcheck('roundtrip', run_roundtrip, C.classify_marshal,
              strategy=lambda tier: C.marshal_case(tier),
@@ -62,4 +97,8 @@ SUBCHECKS = [
              enumerate=lambda tier: C.grid_cases(16),
              shards={'quick': 1, 'thorough': 1},
              exhaustive_note='17 type codes x 16 start offsets x 2 byte orders, one boundary value each'),
+    Subcheck('size_limit', run_size_limit, lambda c: (True, ['array_bytes=2^26' if c['array_bytes'] == 2**26 else 'array_bytes=2^26-1']),
+             enumerate=enum_size_limit, shards={'quick': 5, 'thorough': 5},
+             exhaustive_note='string arrays with exactly 2^26-1 and 2^26 bytes of element data (the largest legal array), '
+                             'both byte orders, one and four elements'),
 ]
